@@ -301,4 +301,60 @@ theorem nothing_stale (p : Prog Act) (required : List Nat)
 
 end Fresh
 
+/-! ## 4. Trace -/
+namespace Trace
+
+def Rel (d : Abs) (s : St) : Prop := ∀ i, s = some i → i ∈ d
+
+theorem sound (evs : List Ev) : Sound (sem evs) (dom evs) Rel where
+  join_l a b s h := fun i hi => List.mem_append_left _ (h i hi)
+  join_r a b s h := fun i hi => mem_union_right (h i hi)
+  le_sound a b s hle h := by
+    simp only [dom, List.all_eq_true, List.contains_iff_mem] at hle
+    exact fun i hi => hle i (h i hi)
+  step_sound x d n s _ h := by
+    intro j hj
+    simp only [sem] at hj
+    simp only [dom]
+    cases he : evOf x with
+    | none =>
+      rw [he] at hj
+      simpa [he] using h j hj
+    | some e =>
+      rw [he] at hj
+      cases s with
+      | none => simp at hj
+      | some i =>
+        simp only at hj
+        split at hj
+        · rename_i hm
+          have : j = i + 1 := by simpa using hj.symm
+          subst this
+          simp only [List.mem_map, List.mem_filter, decide_eq_true_eq]
+          exact ⟨i, ⟨h i rfl, hm⟩, rfl⟩
+        · simp at hj
+  assume_sound c d n s _ h := h
+
+/-- **The matcher never rejects a sequence the skeleton can emit**: if some execution of `p`
+(any oracle) emits exactly the observed events `evs`, and the loop heads stabilised, then
+`accepts p evs = true`.  Contrapositive, used by the correspondence: a rejected trace of the real
+code is one NO execution of the regenerated skeleton can produce. -/
+theorem emitted_is_accepted (p : Prog Act) (evs : List Ev) (o : Oracle)
+    (hok : (analyze (dom evs) p [0]).ok = true)
+    (hemit : (exec (sem evs) p o (some 0)).2.1 = some evs.length) :
+    accepts p evs = true := by
+  have hrel : Rel [0] (some 0) := fun i hi => by
+    have : i = 0 := by simpa using hi.symm
+    simp [this]
+  have hc := analyze_sound (sound evs) p [0] (some 0) o hrel hok
+  simp only [accepts, hok, Bool.true_and, Bool.or_eq_true, List.contains_iff_mem]
+  cases hout : (exec (sem evs) p o (some 0)).1 <;> rw [hout] at hc <;> obtain ⟨d', h1, hr⟩ := hc <;>
+    have hm := hr _ hemit
+  · left; left; left; simpa [h1] using hm
+  · left; left; right; simpa [h1] using hm
+  · left; right; simpa [h1] using hm
+  · right; simpa [h1] using hm
+
+end Trace
+
 end MlVerif.Lifecycle
